@@ -834,6 +834,13 @@ impl Session {
             stream_id,
             data.len()
         );
+        // A frame carries at most u16::MAX payload bytes: larger chunks go out as
+        // several consecutive PSH frames of the same stream.
+        let mut data = data;
+        while data.len() > u16::MAX as usize {
+            let head = data.split_to(u16::MAX as usize);
+            self.write_frame(Frame::data(stream_id, head)).await?;
+        }
         let frame = Frame::data(stream_id, data);
         self.write_frame(frame).await
     }
